@@ -184,7 +184,7 @@ def minimise(module, v, budget_s=20):
 
     def fails(tr):
         try:
-            steps, _ = explorer.replay_trace(spec, v["init"], tr)
+            steps, _ = explorer.replay_trace(spec, v["init"], tr, strict=True)
         except Exception:
             return False
         for lab, outcome, viols, note in steps:
